@@ -22,6 +22,7 @@ func init() {
 			"(R5, unambiguity) a component the formatter leaves out when empty is never produced «explicitly empty» by the parser: a user cut out in front of '@' is non-empty, and an explicit zero SSH port cannot silently disappear (the parser refuses it or the formatter prints it when the path could be read as a port); " +
 			"(R6, delimited host) every value parseSCPSSH can return as Host is the text in front of the first ':' — formatSSH prints host + ':' verbatim, so a host that could contain ':' (e.g. the inside of a bracketed literal) would not read back; " +
 			"(R7, Docker path) parseDocker shortens the path by its first byte only in the cases formatDocker undoes ('/~…', '/<windows path>', the ':' of a forwarding endpoint) — any other normalisation of the path is not restored by the formatter and the text is then re-read by those same tests; " +
+			"(R8, local paths) parseLocal returns a URL only with a path that filesystem.Normalize produced on a way on which it succeeded (what EnsureValid then accepts as absolute) — a failed normalisation is an error, not a pass-through; " +
 			"Not decided: the round-trip equation itself; forwarding.Parse's grammar.",
 		Assumptions: []string{"fmt.Sprintf renders strings and integers losslessly"},
 		Run:         runC38,
@@ -208,6 +209,7 @@ func runC38(c *eng.Ctx) {
 	c38Unambiguous(c, parsedFields)
 	c38Delimited(c, parsedFields)
 	c38DockerPathStrip(c, parsedFields)
+	c38LocalNormalizes(c)
 }
 
 // c38ParserRejects: on every accepting path of a parser the host is non-empty
